@@ -1,5 +1,4 @@
 import Tw.Proofs.NetPeers
-import Mathlib.Data.List.Perm.Subperm
 
 /-! `Net::needs_tick` is the minimum of the peers' deadlines; consequences of the simulation used by
 `Props/C20`. -/
@@ -158,6 +157,34 @@ theorem lookup_none_of_slot_emptied {ps ps' : Peers} {a pid : Nat} {p : Peer} (h
 
 /-! ### the id allocator terminates -/
 
+theorem nodup_map_of_inj_on {α β : Type} {f : α → β} : ∀ (l : List α), l.Nodup →
+    (∀ x, x ∈ l → ∀ y, y ∈ l → f x = f y → x = y) → (l.map f).Nodup
+  | [], _, _ => by simp
+  | z :: zs, hl, hf => by
+    simp only [List.nodup_cons] at hl
+    simp only [List.map_cons, List.nodup_cons]
+    refine ⟨?_, nodup_map_of_inj_on zs hl.2 (fun x hx y hy => hf x (List.mem_cons_of_mem _ hx) y (List.mem_cons_of_mem _ hy))⟩
+    intro hm
+    obtain ⟨y, hy, hfy⟩ := List.mem_map.1 hm
+    have := hf y (List.mem_cons_of_mem _ hy) z (by simp) hfy
+    exact hl.1 (this ▸ hy)
+
+/-- pigeonhole: a duplicate-free list contained in another is not longer -/
+theorem length_le_of_nodup_subset : ∀ (l₁ l₂ : List Nat), l₁.Nodup → (∀ x ∈ l₁, x ∈ l₂) → l₁.length ≤ l₂.length
+  | [], _, _, _ => by simp
+  | x :: xs, l₂, hn, hs => by
+    simp only [List.nodup_cons] at hn
+    have hx : x ∈ l₂ := hs x (by simp)
+    have hsub : ∀ y ∈ xs, y ∈ l₂.erase x := by
+      intro y hy
+      have hne : y ≠ x := fun h => hn.1 (h ▸ hy)
+      exact (List.mem_erase_of_ne hne).2 (hs y (List.mem_cons_of_mem _ hy))
+    have ih := length_le_of_nodup_subset xs (l₂.erase x) hn.2 hsub
+    have hlen := List.length_erase_of_mem hx
+    have hpos : 0 < l₂.length := List.length_pos_of_mem hx
+    simp only [List.length_cons]
+    omega
+
 theorem idMod_eq : idMod = 4294967296 := by decide
 
 def idIter : Nat → Nat → Nat
@@ -194,7 +221,7 @@ theorem newPeerLoop_some (ps : Peers) (n : Nat) (hn : n < idMod) (hlen : ps.leng
   have hall := newPeerLoop_none h
   let cands := (List.range (ps.length + 1)).map (fun k => idIter k n)
   have hnd : cands.Nodup := by
-    apply List.Nodup.map_on _ (List.nodup_range)
+    apply nodup_map_of_inj_on _ List.nodup_range
     intro x hx y hy hxy
     simp only [List.mem_range] at hx hy
     rw [idIter_eq _ _ hn, idIter_eq _ _ hn] at hxy
@@ -207,7 +234,7 @@ theorem newPeerLoop_some (ps : Peers) (n : Nat) (hn : n < idMod) (hlen : ps.leng
     cases hl : lookup ps (idIter k n) with
     | none => exact absurd hl this
     | some p => exact List.mem_map.2 ⟨_, lookup_mem hl, rfl⟩
-  have := (List.subperm_of_subset hnd hsub).length_le
+  have := length_le_of_nodup_subset cands (pids ps) hnd (fun x hx => hsub hx)
   simp [cands, pids] at this
   omega
 
@@ -360,6 +387,13 @@ theorem run_next_lt (h : History) : ∀ (net net' : Net) (outs : List (Ret × Ou
         simp only [hrest, Except.ok.injEq, Prod.mk.injEq] at hr
         rw [← hr.1]
         exact ih net1 net2 outs2 (step_next_lt hn hst) hrest
+
+/-- equality of call results is decidable (for the `decide`d examples) -/
+instance instDecEqExcept {ε α : Type} [DecidableEq ε] [DecidableEq α] : DecidableEq (Except ε α)
+  | .ok a, .ok b => if h : a = b then isTrue (by rw [h]) else isFalse (fun h' => h (by injection h'))
+  | .error a, .error b => if h : a = b then isTrue (by rw [h]) else isFalse (fun h' => h (by injection h'))
+  | .ok _, .error _ => isFalse (fun h => by cases h)
+  | .error _, .ok _ => isFalse (fun h => by cases h)
 
 /-! ### a concrete history (non-vacuity of the hypotheses; the D22 history) -/
 
